@@ -239,7 +239,8 @@ class GroundedPrecondition:
         self.logger.debug(
             "Validating if the universal precondition is applicable in the state"
         )
-        for obj_name, obj in problem_objects.items():
+        # the constants of the domain are objects of every problem and are quantified over as well.
+        for obj_name, obj in {**self.domain.constants, **problem_objects}.items():
             if not obj.type.is_sub_type(condition.quantified_type):
                 continue
 
